@@ -5,7 +5,7 @@
    `load_section_plugins` - the functions the ordering theorems of props/C14.v are about - for every set of plugins and
    every tie-breaking of the topological sort. *)
 From Coq Require Import List Arith Bool.
-From Cobald Require Import model.Toposort model.Sections kit.SectionsIR gen.Gen_sections.
+From Cobald Require Import model.Toposort model.Sections kit.SectionsIR proofs.SectionsTie gen.Gen_sections.
 Import ListNotations.
 
 Theorem C14_tie_choice : gen_dparams = ref_dparams.
@@ -29,4 +29,23 @@ Example C14_tie_sensitive :
   (match load_section_plugins (fun l => l) two_plugins with Ok l => map section l | Err _ => [] end) = [2%nat; 1%nat]
   /\ (match load_section_plugins_p (mkDparams SBefore SAfter true) (fun l => l) two_plugins with Ok l => map section l | Err _ => [] end)
      = [1%nat; 2%nat].
+Proof. split; vm_compute; reflexivity. Qed.
+
+(* load_configuration (config/mapping.py): the order of its phases - logging, validation, digests - and the two tests inside
+   the digest loop (a missing section raises iff the plugin is required; a result is kept iff it is not None) are extracted
+   the same way; with those of the current source, the phases' meaning is the model's load_configuration, for every
+   configuration and every tuple of plugins. *)
+Theorem C14_tie_phases : gen_lparams = ref_lparams.
+Proof. reflexivity. Qed.
+Print Assumptions C14_tie_phases.
+
+Theorem C14_tie_load_configuration : forall cfg ps, load_configuration_p gen_lparams cfg ps = load_configuration cfg ps.
+Proof. intros cfg ps. rewrite C14_tie_phases. apply load_configuration_p_ref. Qed.
+Print Assumptions C14_tie_load_configuration.
+
+(* not vacuous: validating AFTER the digests lets a plugin run although an unknown section is present *)
+Example C14_tie_phases_sensitive :
+  snd (load_configuration [(1%nat, 10%nat); (9%nat, 11%nat)] [mkPlugin 0 1 false false [] [] None]) = []
+  /\ snd (load_configuration_p (mkLparams [PLogging; PDigest; PValidate] MRequired SNotNone)
+                               [(1%nat, 10%nat); (9%nat, 11%nat)] [mkPlugin 0 1 false false [] [] None]) = [EvDigest 0 10].
 Proof. split; vm_compute; reflexivity. Qed.
